@@ -153,6 +153,7 @@ def run(tier, replay_file=None):
                 uid = build(srv)
                 for rule, method in prot:
                     for cname, cred in CREDS.items():
+                        srv.clock.advance(milliseconds=1)      # time passes between requests: a refused request that touches an instance moves its last access
                         before = snapshot(srv)
                         try:
                             status = send(srv, rule, method, uid, cred)
@@ -178,6 +179,7 @@ def run(tier, replay_file=None):
                 for rule, method in prot:
                     if method in ("OPTIONS", "HEAD") or "stop-instance" in rule or "load-state" in rule:
                         continue
+                    srv.clock.advance(milliseconds=1)      # time passes between requests: a refused request that touches an instance moves its last access
                     before = snapshot(srv)
                     st = send(srv, rule, method, uid, "Bearer " + TOKEN)
                     served += int(isinstance(st, int) and st < 400)
@@ -190,6 +192,7 @@ def run(tier, replay_file=None):
                     if method in ("OPTIONS", "HEAD") or "stop-instance" in rule:
                         continue
                     for cname in ("absent", "wrong", "case"):
+                        srv.clock.advance(milliseconds=1)      # time passes between requests: a refused request that touches an instance moves its last access
                         before = snapshot(srv)
                         try:
                             status = send(srv, rule, method, uid, CREDS[cname])
@@ -226,6 +229,7 @@ def run(tier, replay_file=None):
                 if bad:
                     R.violation(bad["clause"], bad); break
                 method, rule = h["kind"].split(" ", 1)
+                srv.clock.advance(milliseconds=1)      # time passes between requests: a refused request that touches an instance moves its last access
                 before = snapshot(srv)
                 st = send(srv, rule, method, srv.uid(h["i"]), CREDS[h["cred"]])
                 d = diff(before, snapshot(srv))
@@ -273,6 +277,7 @@ def run(tier, replay_file=None):
                     if method in ("OPTIONS", "HEAD"):
                         continue
                     for cname in ("absent", "wrong"):
+                        srv.clock.advance(milliseconds=1)      # time passes between requests: a refused request that touches an instance moves its last access
                         before = snapshot(srv)
                         try:
                             status = send(srv, rule, method, srv.uid("i2") if "stop-instance" in rule else uid, CREDS[cname])
